@@ -134,6 +134,11 @@ func H_C07(entry, cenc, renc, kind, provider int) {
 		b.ContentEncodingEnabled(true)
 	}
 	ws.Route(b)
+	// a second route with the opposite own setting, served first when "warmup" is chosen:
+	// its setting must not stick to the container
+	warm := ws.GET("/w").To(func(req *Request, resp *Response) { resp.WriteHeader(204) })
+	warm.ContentEncodingEnabled(cenc == 0)
+	ws.Route(warm)
 	c.Add(ws)
 	plain := http.HandlerFunc(func(w http.ResponseWriter, r *http.Request) { body(w) })
 	if entry == 2 {
@@ -157,8 +162,17 @@ func H_C07(entry, cenc, renc, kind, provider int) {
 	if preset {
 		rec.hdr.Set("Content-Encoding", "identity")
 	}
+	if nondetBool("warmup") {
+		c.Dispatch(vNewRec(), vHdrReq("GET", "/t/w", map[string]string{"Accept-Encoding": "gzip"}))
+		verifCover("after-warmup")
+	}
 	req := vHdrReq("GET", path, map[string]string{"Accept-Encoding": ae})
 	escaped := false
+	fp := verifFingerprint(c)
+	verifFrameBegin("serve", led, rec, &expected, &recovered, &escaped)
+	defer func() {
+		verifAssert(verifFingerprint(c) == fp, "native: C07: serving a request changed the container's configuration")
+	}()
 	func() {
 		defer func() {
 			if x := recover(); x != nil {
@@ -174,6 +188,7 @@ func H_C07(entry, cenc, renc, kind, provider int) {
 			c.ServeHTTP(rec, req)
 		}
 	}()
+	verifFrameEnd()
 	if kind >= 2 && entry <= 1 {
 		verifAssert(recovered == 1 && !escaped, "C07: the panic was not handed to the recover handler exactly once")
 		expected += "rec"
